@@ -190,3 +190,42 @@ Proof.
     apply IH. intros b Hin. apply Hb. right; exact Hin.
 Qed.
 End Families.
+
+(* ---------- parts of a product-space element ---------- *)
+Lemma list_sum_split (cs : list nat) j : (j < length cs)%nat ->
+  (list_sum (firstn j cs) + nth j cs 0 + list_sum (skipn (S j) cs))%nat = list_sum cs.
+Proof.
+  revert j; induction cs as [|c cs IH]; intros j Hj; [cbn in Hj; lia|].
+  assert (lsc' : forall n l, list_sum (n :: l) = (n + list_sum l)%nat) by reflexivity.
+  destruct j as [|j]; [cbn [firstn nth skipn]; rewrite lsc'; cbn; lia|].
+  cbn in Hj. specialize (IH j ltac:(lia)).
+  change (skipn (S (S j)) (c :: cs)) with (skipn (S j) cs).
+  change (firstn (S j) (c :: cs)) with (c :: firstn j cs).
+  change (nth (S j) (c :: cs) 0%nat) with (nth j cs 0%nat).
+  rewrite !lsc'. lia.
+Qed.
+
+Lemma blin_proj cs j : (j < length cs)%nat ->
+  blin (list_sum cs) (nth j cs 0%nat) (proj cs j).
+Proof.
+  intros Hj. pose proof (list_sum_split cs j Hj) as E.
+  set (s := list_sum (firstn j cs)) in *. set (k := nth j cs 0%nat) in *.
+  set (b := list_sum (skipn (S j) cs)) in *.
+  unfold proj. fold s k. rewrite <- E.
+  apply (blin_comp _ (k + b) _ (firstn k) (skipn s)).
+  - replace (s + k + b)%nat with (s + (k + b))%nat by lia. apply blin_skipn_add.
+  - apply blin_firstn_add.
+Qed.
+
+Lemma blin_embed rs i : (i < length rs)%nat ->
+  blin (nth i rs 0%nat) (list_sum rs) (embed rs i).
+Proof.
+  intros Hi. pose proof (list_sum_split rs i Hi) as E.
+  set (a := list_sum (firstn i rs)) in *. set (k := nth i rs 0%nat) in *.
+  set (b := list_sum (skipn (S i) rs)) in *.
+  unfold embed. fold a k b. rewrite <- E.
+  replace (a + k + b)%nat with (a + (k + b))%nat by lia.
+  apply (blin_app k a (k + b) (fun _ => vconst a 0) (fun v => v ++ vconst b 0)).
+  - apply blin_zero.
+  - apply (blin_app k k b (fun v => v) (fun _ => vconst b 0)); [apply blin_id|apply blin_zero].
+Qed.
